@@ -22,16 +22,17 @@
 (***************************************************************************)
 EXTENDS Integers, Sequences, FiniteSets, TLC, Bitwise, Bytes, Codes, Codec, Responder
 
-CONSTANTS EpAddr, BoAddr, NewEid, Mts, Vids, Uuid, MaxFaults, MaxTries, Bursts, Script, O
+CONSTANTS EpAddr, BoAddr, NewEid, NewEid2, Mts, Vids, Uuid, MaxFaults, MaxTries, Bursts, FaultKinds, Script, O
 
 ScriptLen == Len(Script)
 
 (* request the bus owner sends for script step k, with instance id i and vendor selector s *)
 ReqFor(name, i, s) ==
     Frame(EpAddr, BoAddr, MT_CONTROL,
-          << 128 + i, CASE name = "set" -> 1 [] name = "geteid" -> 2 [] name = "uuid" -> 3
+          << 128 + i, CASE name \in {"set", "set2"} -> 1 [] name = "geteid" -> 2 [] name = "uuid" -> 3
                         [] name = "types" -> 5 [] name = "vendor" -> 6 >>
-          \o (CASE name = "set" -> << 0, NewEid >> [] name = "vendor" -> << s >> [] OTHER -> << >>))
+          \o (CASE name = "set" -> << 0, NewEid >> [] name = "set2" -> << 1, NewEid2 >>     \* set2: Force a second EID
+                 [] name = "vendor" -> << s >> [] OTHER -> << >>))
 
 (* a burst of at most 8 bits: XOR pattern pat (a byte) into byte k, or split over bytes k, k+1 by shift sh *)
 Corrupted(p, k, pat, sh) ==
@@ -86,7 +87,7 @@ Corrupted(p, k, pat, sh) ==
                 /\ Rq(r) = 0 /\ Cmd(r) = Cmd(outstanding) /\ Iid(r) = Iid(outstanding)) {
               \* accepted: it must really be the answer to the outstanding request
               if (d.kind = "ok") {
-                if (Script[pc_step] = "set")    { learned.eid := r[14]; }
+                if (Script[pc_step] \in {"set", "set2"}) { learned.eid := r[14]; }
                 else if (Script[pc_step] = "geteid") { misMatch := misMatch \/ (r[13] # learned.eid /\ learned.eid # -1); }
                 else if (Script[pc_step] = "uuid")   { learned.uuid := SubSeq(r, 13, Len(r) - 1); }
                 else if (Script[pc_step] = "types")  { learned.types := SubSeq(r, 13, Len(r) - 1); }
@@ -148,14 +149,14 @@ Corrupted(p, k, pat, sh) ==
   w:  while (TRUE) {
         await faults < MaxFaults /\ toEp # << >>;
         faults := faults + 1;
-        either { toEp := << >>; faulted := FALSE; }                                   \* drop
+        either { await "drop" \in FaultKinds; toEp := << >>; faulted := FALSE; }      \* drop
         \* at most one alteration per packet: C02 speaks of a corruption confined to 8 consecutive bits
-        or { await ~faulted;
+        or { await ~faulted /\ "trunc" \in FaultKinds;
              with (k \in 1..(Len(toEp) - 1)) { toEp := SubSeq(toEp, 1, k); faulted := TRUE; } }   \* truncate
-        or { await ~faulted;
+        or { await ~faulted /\ "burst" \in FaultKinds;
              with (k \in 1..Len(toEp), b \in Bursts) {
                toEp := Corrupted(toEp, k, b[1], b[2]); faulted := TRUE; } }           \* burst of <= 8 bits
-        or { await ~faulted; dup := toEp; }                                         \* duplicate
+        or { await ~faulted /\ "dup" \in FaultKinds; dup := toEp; }                                         \* duplicate
       }
   }
 } *)
@@ -214,7 +215,7 @@ bo == /\ pc["bo"] = "bo"
                                     /\ r[7] = EpAddr /\ r[6] = BoAddr
                                     /\ Rq(r) = 0 /\ Cmd(r) = Cmd(outstanding) /\ Iid(r) = Iid(outstanding)
                                     THEN /\ IF d.kind = "ok"
-                                               THEN /\ IF Script[pc_step] = "set"
+                                               THEN /\ IF Script[pc_step] \in {"set", "set2"}
                                                           THEN /\ learned' = [learned EXCEPT !.eid = r[14]]
                                                                /\ UNCHANGED << seen, 
                                                                                misMatch >>
@@ -331,21 +332,22 @@ Endpoint == ep \/ probe \/ proc
 w == /\ pc["wire"] = "w"
      /\ faults < MaxFaults /\ toEp # << >>
      /\ faults' = faults + 1
-     /\ \/ /\ toEp' = << >>
+     /\ \/ /\ "drop" \in FaultKinds
+           /\ toEp' = << >>
            /\ faulted' = FALSE
            /\ dup' = dup
-        \/ /\ ~faulted
+        \/ /\ ~faulted /\ "trunc" \in FaultKinds
            /\ \E k \in 1..(Len(toEp) - 1):
                 /\ toEp' = SubSeq(toEp, 1, k)
                 /\ faulted' = TRUE
            /\ dup' = dup
-        \/ /\ ~faulted
+        \/ /\ ~faulted /\ "burst" \in FaultKinds
            /\ \E k \in 1..Len(toEp):
                 \E b \in Bursts:
                   /\ toEp' = Corrupted(toEp, k, b[1], b[2])
                   /\ faulted' = TRUE
            /\ dup' = dup
-        \/ /\ ~faulted
+        \/ /\ ~faulted /\ "dup" \in FaultKinds
            /\ dup' = toEp
            /\ UNCHANGED <<toEp, faulted>>
      /\ pc' = [pc EXCEPT !["wire"] = "w"]
@@ -371,7 +373,9 @@ NoMisMatch == ~misMatch
 (* C04: the length probe recovers the boundary of every unaltered packet *)
 FramingOk == ~framingErr
 (* C13: once the assignment was acknowledged both sides agree on the EID, and keep agreeing *)
-EidAgreement == learned.eid # -1 => (learned.eid = NewEid /\ m.eidResp = NewEid /\ m.eidReq = NewEid)
+EidAgreement == learned.eid # -1 =>
+                  /\ learned.eid \in {NewEid, NewEid2} /\ m.eidReq = m.eidResp
+                  /\ (m.eidResp = learned.eid \/ (outstanding # << >> /\ Cmd(outstanding) = 1))
 (* C15: what the bus owner learned is what the endpoint was configured with *)
 IdentityOk == /\ learned.uuid # << >> => learned.uuid = Uuid
               /\ learned.types # << -1 >> => learned.types = << Len(Mts) >> \o Mts
